@@ -56,6 +56,17 @@ def streams(tier, rng, P, only=None, cases=None):
             evs = gen.rand_track(rng, maxlen=rng.choice([6, 12, 25]), wild=(i % 4 == 0))
             p = rng.choice([0, 1, 10, 96, 200, 480, rng.randint(0, 1500)])
             cs.append(dict(req="playfrom %d %s" % (p, evs), show="play_from(%d) on %s" % (p, evs[:200]), p=p, evs=evs, key="pf%d" % i))
+        # the same controllers and programs written several times, out of time order and on two channels of one track: the values
+        # re-issued are the latest in time before the point, each on its own channel
+        for i in range(1500 if big else 250):
+            chs = rng.sample(range(16), 2); nos = rng.sample([0, 1, 7, 10, 11, 64, 91, 127], 2); l = []
+            for _ in range(rng.randrange(2, 9)):
+                t = rng.choice([0, 10, 96, 200, 480, rng.randint(0, 700)])
+                if rng.random() < 0.7: l.append("cc:%d:%d:%d:%d:0:~" % (t, rng.choice(chs), rng.choice(nos), rng.randint(0, 127)))
+                else: l.append("voice:%d:%d:%d:0:0:~" % (t, rng.choice(chs), rng.randint(0, 127)))
+            l.append("on:%d:%d:60:48:100:~" % (rng.randint(0, 900), chs[0]))
+            p = rng.choice([1, 10, 96, 200, 480, 700, rng.randint(0, 800)]); evs = ",".join(l)
+            cs.append(dict(req="playfrom %d %s" % (p, evs), show="play_from(%d) on %s" % (p, evs[:200]), p=p, evs=evs, key="pfo%d" % i))
         return cs
     def pf_model(c, st, f): return [c["req"], "pflaw %d %s" % (c["p"], c["evs"])]
     def pf_judge(c, impl, m):
